@@ -626,7 +626,8 @@ def comp_value(rng, kind, drop_optional=None):
 def component_functions(ctx, prop):
     import inspect
     from CircuitCalculator.Circuit import components as ccp
-    fs = [n for n, f in inspect.getmembers(ccp, inspect.isfunction) if f.__module__ == ccp.__name__ and n != 'is_active']
+    fs = [n for n, f in inspect.getmembers(ccp, inspect.isfunction) if f.__module__ == ccp.__name__ and n != 'is_active'
+          and not n.startswith('_')]          # private helpers are not constructors
     unknown = [f for f in fs if f not in COMPONENT_ARGS]
     if unknown:
         ctx.violation(f'correspondence:{prop}-constructors-changed', f'component constructors {unknown} are unknown to the correspondence generator',
